@@ -7,24 +7,25 @@ Generators become lists in yield order, exceptions become `Except Err`.
 that pass validation (no object loops, pack/channel multitree, object parameters
 only in leaves, consistent alternativeValueSet references, ...).
 
-Not modelled: Matrix packs (`unsupported` as soon as the document contains one)
-and the general back-tracking allocator `pack_allocation.allocate_packs` (C07's
-subject).  `allocateObject` / `allocateChna` compute *the* allocation for the
-class of documents in which every real track has exactly one compatible slot
-(each track's (channel format, pack format) determines its slot); outside that
-class they answer `unsupported`.  The order of the allocated packs follows what
-the real allocator does for a unique solution: packs holding real tracks in the
-order of their first track, then all-silent packs in `audioPackFormats` order.
+The track allocation is `pack_allocation.allocate_packs` as modelled for C07
+(`Model/PackAlloc.lean`, imported): `selectPackMapping` builds the `AllocationPack`s
+(`get_wrapped_packs`, including the three usages of Matrix packs), the `AllocationTrackUID`s
+and calls `PackAlloc.selectPackMapping`; `outputOf` is `output_pack` /
+`output_channel_allocation` (nested track specs for matrix packs, type from `Model/TrackSpec.lean`).
+Not modelled: `validate_selected_audioTrackUID` (tracks always have a track index, a pack and a
+channel format here).
 Core Lean only.
 -/
 import Earverif.Model.Adm
+import Earverif.Model.PackAlloc
+import Earverif.Model.TrackSpec
 namespace Earverif.Adm
 
 inductive Err where
   | notComplementary   -- AdmError "selected audioObject .. is not part of any complementary audioObject group"
   | multipleSelected   -- AdmError "multiple audioObjects selected from complementary object group"
   | conflicting        -- AdmFormatRefError "Conflicting format references"
-  | unsupported        -- outside the modelled class (matrix packs, ambiguous allocations)
+  | ambiguous          -- AdmFormatRefError "Ambiguous format references"
   | pathParamConflict  -- AdmError "Conflicting .. values in path" (get_path_param)
   | paramMismatch      -- AdmError "All audioChannelFormats in a single audioPackFormat must share .." (get_single_param)
   | notImplemented     -- NotImplementedError in _get_rendering_items
@@ -148,7 +149,7 @@ def onlySelected (ign : List Nat) (st : State) : List State :=
   | none => [st]
   | some p => if p.any (ign.contains ·) then [] else [st]
 
-/-! ### pack / track allocation (restricted class, see header) -/
+/-! ### pack / track allocation: `_PackAllocator` on top of `pack_allocation.allocate_packs` (C07 model) -/
 
 def Formats.packSubs (f : Formats) (i : Nat) : List Nat := (f.pack i).subPacks
 
@@ -156,7 +157,8 @@ def Formats.packSubs (f : Formats) (i : Nat) : List Nat := (f.pack i).subPacks
 def packPathsFrom (f : Formats) (p : Nat) : List (List Nat) :=
   pathsFrom f.packSubs f.packs.length p
 
-/-- channels of `wrap_non_matrix_pack`: (pack path, channel) in order. -/
+/-- `(pack_formats, channel_format) for pack_formats in pack_format_paths_from(p)
+for channel_format in pack_formats[-1].audioChannelFormats`. -/
 def slots (f : Formats) (p : Nat) : List (List Nat × Nat) :=
   (packPathsFrom f p).flatMap fun path => (f.pack (path.getLastD 0)).channels.map fun ch => (path, ch)
 
@@ -166,79 +168,147 @@ def trackChannel (f : Formats) (u : Nat) : Nat :=
   | .trackFormat tf => f.streamFormats.getD (f.trackFormats.getD tf 0) 0
   | .channel c => c
 
-/-- `pack_allocation._is_compatible` for a real track. -/
-def compatible (f : Formats) (u : Nat) (slot : List Nat × Nat) : Bool :=
-  trackChannel f u == slot.2 && slot.1.contains (f.uid u).pack
-
-/-- one allocated pack: root pack and (channel, track uid or silent) per slot. -/
-structure AllocPack where
-  pack : Nat
-  alloc : List (Nat × Option Nat)
+/-- `RegularAllocationPack` / `MatrixAllocationPack`. -/
+inductive WKind where
+  | regular
+  | matrix
   deriving DecidableEq, Inhabited
 
-/-- all (instance, slot) positions a track is compatible with. -/
-def candidates (f : Formats) (insts : List (Nat × List (List Nat × Nat))) (u : Nat) : List (Nat × Nat) :=
-  insts.zipIdx.flatMap fun (inst, j) =>
-    inst.2.zipIdx.filterMap fun (slot, k) => if compatible f u slot then some (j, k) else none
+/-- an `OutputAllocationPack`: `root_pack` and the `AllocationChannel`s to match.  `id` stands for
+the identity of the Python object: `3 * root + variant` (variant 0: regular pack or direct/decode
+matrix use, 1: pre-applied matrix use, 2: encode-then-decode use), distinct for distinct objects. -/
+structure WPack where
+  id : Nat
+  kind : WKind
+  root : Nat
+  channels : List PackAlloc.Channel
+  deriving DecidableEq, Inhabited
 
-/-- `allocate_packs(packs, tracks, pack_refs, n_silent)` for an audioObject, on
-the class where every track has exactly one compatible slot among the referenced
-packs (then the valid allocation is unique). -/
-def allocateObject (f : Formats) (prs : List Nat) (tracks : List Nat) (nSilent : Nat) :
-    Except Err (List AllocPack) :=
-  let insts := prs.map fun p => (p, slots f p)
-  match mapE (fun u => match candidates f insts u with
-      | [jk] => .ok (jk, u)
-      | [] => .error .conflicting
-      | _ => .error .unsupported) tracks with
-  | .error e => .error e
-  | .ok assign =>
-    let used := assign.map (·.1)
-    if used.eraseDups.length != used.length then .error .conflicting
-    else if insts.any (·.2.isEmpty) then .error .conflicting
-    else if (insts.map (·.2.length)).sum != tracks.length + nSilent then .error .conflicting
-    else
-      let fill (j : Nat) : AllocPack :=
-        let inst := insts.getD j default
-        ⟨inst.1, inst.2.zipIdx.map fun (slot, k) => (slot.2, (assign.find? (·.1 == (j, k))).map (·.2))⟩
-      let withReal := (used.map (·.1)).eraseDups
-      let silentOnly := (List.range insts.length).filter fun j => !withReal.contains j
-      let silentSorted := (List.range f.packs.length).flatMap fun p =>
-        silentOnly.filter fun j => prs.getD j 0 == p
-      .ok ((withReal ++ silentSorted).map fill)
+/-- `wrap_non_matrix_pack`. -/
+def wrapRegular (f : Formats) (p : Nat) : WPack :=
+  ⟨3 * p, .regular, p, (slots f p).map fun s => ⟨s.2, s.1⟩⟩
 
-/-- `allocate_packs(packs, all tracks, None, 0)` (CHNA-only mode) on the class
-where every track references a root pack and each multi-channel pack is used once. -/
-def allocateChna (f : Formats) (tracks : List Nat) : Except Err (List AllocPack) :=
-  flatMapE (fun (ui : Nat × Nat) =>
-    let u := ui.1
-    let p := (f.uid u).pack
-    if f.packs.any (·.subPacks.contains p) then .error .unsupported
-    else
-      let sl := slots f p
-      if (sl.filter (compatible f u)).isEmpty then .error .conflicting
-      else match sl with
-        | [slot] => .ok [⟨p, [(slot.2, some u)]⟩]
-        | _ =>
-          let group := tracks.filter fun v => (f.uid v).pack == p
-          if (tracks.zipIdx.find? fun vi => (f.uid vi.1).pack == p).map (·.2) != some ui.2 then .ok []
-          else
-            match mapE (fun (slot : List Nat × Nat) =>
-                match group.filter (fun v => compatible f v slot) with
-                | [v] => .ok (slot.2, some v)
-                | [] => .error .conflicting
-                | _ => .error .unsupported) sl with
+/-- `wrap_matrix_pack` (`matrix.type_of`, `matrix.input_pack_format`): direct / decode use,
+pre-applied use, and for decode matrices encode-then-decode use; encode matrices are not wrapped. -/
+def wrapMatrix (f : Formats) (p : Nat) : Except Err (List WPack) :=
+  let pk := f.pack p
+  let flat (q fixed : Nat) : List PackAlloc.Channel := (slots f q).map fun s => ⟨s.2, [fixed]⟩
+  let preApplied : WPack := ⟨3 * p + 1, .matrix, p, (slots f p).map fun s => ⟨s.2, s.1⟩⟩
+  match pk.inputPack, pk.outputPack with
+  | some i, some _ => .ok [⟨3 * p, .matrix, p, flat i p⟩, preApplied]     -- DIRECT
+  | some _, none => .ok []                                                -- ENCODE
+  | none, some _ =>                                                       -- DECODE
+    match pk.encodePacks with
+    | [e] =>
+      match (f.pack e).inputPack with
+      | some ei => .ok [⟨3 * p, .matrix, p, flat e p⟩, preApplied, ⟨3 * p + 2, .matrix, p, flat ei e⟩]
+      | none => .error .internal
+    | _ => .error .internal
+  | none, none => .error .internal
+
+/-- `_PackAllocator.get_wrapped_packs` (= `self.packs`). -/
+def wrappedPacks (f : Formats) : Except Err (List WPack) :=
+  flatMapE (fun p => if (f.pack p).type ≠ 2 then .ok [wrapRegular f p] else wrapMatrix f p)
+    (List.range f.packs.length)
+
+/-- a track specification (`metadata_input.TrackSpec` subclasses; the C20 model's type). -/
+abbrev TSpec := Earverif.TrackSpec.Spec Rat
+
+instance : Inhabited TSpec := ⟨.silent⟩
+
+/-- one allocated *output* pack: `output_pack` and `output_channel_allocation`. -/
+structure AllocPack where
+  pack : Nat
+  alloc : List (Nat × TSpec)
+  deriving Inhabited
+
+/-- `_PackAllocator.get_track_spec` on an allocation entry (`uids` are the selected track UIDs,
+an `AllocationTrackUID` is identified by its position among them). -/
+def slotSpec (f : Formats) (uids : List Nat) (s : PackAlloc.Slot) : Except Err TSpec :=
+  match s with
+  | none => .error .internal                       -- `_EMPTY` never escapes a solution
+  | some none => .ok .silent
+  | some (some t) =>
+    match uids[t.id]? with
+    | some u => .ok (.direct (((f.uid u).trackIndex : Int) - 1))
+    | none => .error .internal
+
+/-- `get_track_spec(channel_format)` inside `MatrixAllocationPack.output_channel_allocation`:
+a channel of the input allocation gives its track; otherwise the channel must be a matrix channel
+and its coefficients are applied to the specs of their input channels. -/
+def matrixSpec (f : Formats) (inputs : List (Nat × TSpec)) : Nat → Nat → Except Err TSpec
+  | 0, _ => .error .internal
+  | fuel + 1, ch =>
+    match inputs.find? (·.1 == ch) with
+    | some s => .ok s.2
+    | none =>
+      if (f.chan ch).type ≠ 2 then .error .internal
+      else
+        match mapE (fun (c : Coeff) =>
+            match matrixSpec f inputs fuel c.input with
             | .error e => .error e
-            | .ok al => .ok [⟨p, al⟩]) tracks.zipIdx
+            | .ok s => .ok (Earverif.TrackSpec.Spec.matrix s c.gain c.delay)) (f.chan ch).matrix.coeffs with
+        | .error e => .error e
+        | .ok specs => .ok (.gain (.mix specs) (f.chan ch).matrix.gain)
 
-/-- `get_selected_packs_tracks_silent` + `select_pack_mapping`. -/
+/-- `RegularAllocationPack.output_channel_allocation`: `(channel.channel_format, get_track_spec(track))`. -/
+def slotEntry (f : Formats) (uids : List Nat) (cs : PackAlloc.Channel × PackAlloc.Slot) : Except Err (Nat × TSpec) :=
+  match slotSpec f uids cs.2 with
+  | .error e => .error e
+  | .ok s => .ok (cs.1.cf, s)
+
+/-- `get_channel_allocation(matrix_channel)`: `(block_format.outputChannelFormat, get_track_spec(matrix_channel))`. -/
+def matrixEntry (f : Formats) (inputs : List (Nat × TSpec)) (mc : Nat) : Except Err (Nat × TSpec) :=
+  match (f.chan mc).matrix.outputChannel with
+  | none => .error .internal
+  | some oc =>
+    match matrixSpec f inputs (f.channels.length + 1) mc with
+    | .error e => .error e
+    | .ok s => .ok (oc, s)
+
+/-- `pack.pack.output_pack`, `pack.pack.output_channel_allocation(pack.allocation)`.  The class of
+the `OutputAllocationPack` (`RegularAllocationPack` / `MatrixAllocationPack`) was fixed in
+`get_wrapped_packs` by the type of its `root_pack`, so it is read off the root pack here. -/
+def outputOf (f : Formats) (uids : List Nat) (al : PackAlloc.Allocated) : Except Err AllocPack :=
+  let root := al.pack.root
+  match mapE (slotEntry f uids) al.allocation with
+  | .error e => .error e
+  | .ok inputs =>
+    if (f.pack root).type ≠ 2 then .ok ⟨root, inputs⟩
+    else
+      match (f.pack root).outputPack with
+      | none => .error .internal
+      | some out =>
+        match mapE (matrixEntry f inputs) (f.pack root).channels with
+        | .error e => .error e
+        | .ok al' => .ok ⟨out, al'⟩
+
+/-- the `allocate_packs` problem of a state: `get_selected_packs_tracks_silent` and the
+`AllocationTrackUID`s; also returns the selected track UIDs. -/
+def allocProblem (a : Adm) (st : State) (wps : List WPack) : PackAlloc.Problem × List Nat :=
+  let f := a.fmt
+  let packs : List PackAlloc.Pack := wps.map fun w => ⟨w.id, w.root, w.channels⟩
+  let sel : List Nat × Option (List Nat) × Nat :=
+    match st.objPath with
+    | some p =>
+      let o := a.obj (p.getLastD 0)
+      let real := o.tracks.filterMap id
+      (real, some o.packs, o.tracks.length - real.length)
+    | none => (List.range f.trackUIDs.length, none, 0)
+  let tracks : List PackAlloc.Track := sel.1.zipIdx.map fun ui => ⟨ui.2, trackChannel f ui.1, (f.uid ui.1).pack⟩
+  (⟨packs, tracks, sel.2.1, sel.2.2⟩, sel.1)
+
+/-- `select_pack_mapping`: exactly one solution of `allocate_packs`, else
+"Conflicting"/"Ambiguous format references". -/
 def selectPackMapping (a : Adm) (st : State) : Except Err (List AllocPack) :=
-  match st.objPath with
-  | some p =>
-    let o := a.obj (p.getLastD 0)
-    let real := o.tracks.filterMap id
-    allocateObject a.fmt o.packs real (o.tracks.length - real.length)
-  | none => allocateChna a.fmt (List.range a.fmt.trackUIDs.length)
+  match wrappedPacks a.fmt with
+  | .error e => .error e
+  | .ok wps =>
+    let pu := allocProblem a st wps
+    match PackAlloc.selectPackMapping pu.1 with
+    | .conflicting => .error .conflicting
+    | .ambiguous => .error .ambiguous
+    | .accepted sol => mapE (outputOf a.fmt pu.2) sol
 
 /-! ### per-channel data -/
 
@@ -271,7 +341,7 @@ structure HoaMeta where
 /-- A rendering item; non-HOA items have singleton `tracks`/`channels`/`packPaths`/`importances`. -/
 structure Item where
   kind : Nat
-  tracks : List (Option Nat)        -- DirectTrackSpec(index) / SilentTrackSpec
+  tracks : List TSpec               -- track specs (DirectTrackSpec / SilentTrackSpec / matrix trees)
   channels : List Nat
   programme : Option Nat
   content : Option Nat
@@ -281,7 +351,7 @@ structure Item where
   importances : List (Option Int × Option Int)
   blocks : List Nat
   hoa : Option HoaMeta
-  deriving DecidableEq, Inhabited
+  deriving Inhabited
 
 /-- `_get_pack_format_path`. -/
 def getPackFormatPath (f : Formats) (p ch : Nat) : Except Err (List Nat) :=
@@ -370,18 +440,15 @@ def getImportance (a : Adm) (st : State) (packPath : List Nat) : Option Int × O
     | none => none),
    minImp (packPath.map fun p => (a.fmt.pack p).importance))
 
-/-- `_PackAllocator.get_track_spec`. -/
-def trackSpec (f : Formats) (t : Option Nat) : Option Nat := t.map fun u => (f.uid u).trackIndex - 1
-
 /-- `_get_RenderingItems_Objects` / `_DirectSpeakers`: one item per allocated channel. -/
-def singleItem (a : Adm) (st : State) (ty p : Nat) (ct : Nat × Option Nat) : Except Err Item :=
+def singleItem (a : Adm) (st : State) (ty p : Nat) (ct : Nat × TSpec) : Except Err Item :=
   match getPackFormatPath a.fmt p ct.1 with
   | .error e => .error e
   | .ok pp =>
     match getExtraData a st [(pp, ct.1)] (some ct.1) with
     | .error e => .error e
     | .ok ex => .ok {
-        kind := ty, tracks := [trackSpec a.fmt ct.2], channels := [ct.1],
+        kind := ty, tracks := [ct.2], channels := [ct.1],
         programme := st.programme, content := st.content, objPath := st.objPath,
         packPaths := [pp], extra := ex, importances := [getImportance a st pp],
         blocks := (a.fmt.chan ct.1).blocks, hoa := none }
@@ -391,55 +458,71 @@ def hoaPackParam {β : Type} [DecidableEq β] (f : Formats) (ps : Pack → Optio
     (pc : List Nat × Nat) : Except Err (Option β) :=
   getPathParam (pc.1.map (fun p => ps (f.pack p)) ++ [bs (f.chan pc.2).hoa])
 
+/-- `_select_single_channel` for the HOA case: `(audioPackFormat_path, audioChannelFormat)`. -/
+def hoaPathOf (f : Formats) (p : Nat) (ct : Nat × TSpec) : Except Err (List Nat × Nat) :=
+  match getPackFormatPath f p ct.1 with
+  | .error e => .error e
+  | .ok pp => .ok (pp, ct.1)
+
+/-- `hoa.get_normalization` (default "SN3D" = label 0). -/
+def hoaNorm (f : Formats) (pc : List Nat × Nat) : Except Err Nat :=
+  match hoaPackParam f (·.normalization) (·.normalization) pc with
+  | .error e => .error e
+  | .ok v => .ok (v.getD 0)
+
+/-- `hoa.get_nfcRefDist` (0.0 means "not set"). -/
+def hoaNfc (f : Formats) (pc : List Nat × Nat) : Except Err (Option Rat) :=
+  match hoaPackParam f (·.nfcRefDist) (·.nfcRefDist) pc with
+  | .error e => .error e
+  | .ok v => .ok (if v = some 0 then none else v)
+
+/-- `hoa.get_screenRef` (default False). -/
+def hoaSref (f : Formats) (pc : List Nat × Nat) : Except Err Bool :=
+  match hoaPackParam f (·.screenRef) (·.screenRef) pc with
+  | .error e => .error e
+  | .ok v => .ok (v.getD false)
+
+/-- the `HOATypeMetadata` parameters of `_get_RenderingItems_HOA`, in evaluation order. -/
+def hoaMetaOf (f : Formats) (ppc : List (List Nat × Nat)) : Except Err HoaMeta :=
+  let blk (c : Nat) := (f.chan c).hoa
+  match getSingleParam ppc (fun pc => (.ok (blk pc.2).rtime : Except Err (Option Rat))) with
+  | .error e => .error e
+  | .ok rtime =>
+  match getSingleParam ppc (fun pc => (.ok (blk pc.2).duration : Except Err (Option Rat))) with
+  | .error e => .error e
+  | .ok duration =>
+  match getSingleParam ppc (hoaNorm f) with
+  | .error e => .error e
+  | .ok norm =>
+  match getSingleParam ppc (hoaNfc f) with
+  | .error e => .error e
+  | .ok nfc =>
+  match getSingleParam ppc (hoaSref f) with
+  | .error e => .error e
+  | .ok sref => .ok {
+      rtime := rtime, duration := duration,
+      orders := ppc.map fun pc => (blk pc.2).order,
+      degrees := ppc.map fun pc => (blk pc.2).degree,
+      gains := ppc.map fun pc => (blk pc.2).gain,
+      importances := ppc.map fun pc => (blk pc.2).importance,
+      normalization := norm, nfcRefDist := nfc, screenRef := sref }
+
 /-- `_get_RenderingItems_HOA`: one item per allocated pack. -/
 def hoaItem (a : Adm) (st : State) (ap : AllocPack) : Except Err Item :=
-  let f := a.fmt
-  match mapE (fun (ct : Nat × Option Nat) =>
-      match getPackFormatPath f ap.pack ct.1 with
-      | .error e => .error e
-      | .ok pp => .ok (pp, ct.1)) ap.alloc with
+  match mapE (hoaPathOf a.fmt ap.pack) ap.alloc with
   | .error e => .error e
   | .ok ppc =>
-    let blk (c : Nat) := (f.chan c).hoa
-    match getSingleParam ppc (fun pc => (.ok (blk pc.2).rtime : Except Err (Option Rat))) with
+    match hoaMetaOf a.fmt ppc with
     | .error e => .error e
-    | .ok rtime =>
-    match getSingleParam ppc (fun pc => (.ok (blk pc.2).duration : Except Err (Option Rat))) with
-    | .error e => .error e
-    | .ok duration =>
-    match getSingleParam ppc (fun pc =>
-        match hoaPackParam f (·.normalization) (·.normalization) pc with
-        | .error e => .error e
-        | .ok v => .ok (v.getD 0)) with
-    | .error e => .error e
-    | .ok norm =>
-    match getSingleParam ppc (fun pc =>
-        match hoaPackParam f (·.nfcRefDist) (·.nfcRefDist) pc with
-        | .error e => .error e
-        | .ok v => .ok (if v = some 0 then none else v)) with
-    | .error e => .error e
-    | .ok nfc =>
-    match getSingleParam ppc (fun pc =>
-        match hoaPackParam f (·.screenRef) (·.screenRef) pc with
-        | .error e => .error e
-        | .ok v => .ok (v.getD false)) with
-    | .error e => .error e
-    | .ok sref =>
-    match getExtraData a st ppc none with
-    | .error e => .error e
-    | .ok ex => .ok {
-        kind := 4, tracks := ap.alloc.map fun ct => trackSpec f ct.2, channels := ppc.map (·.2),
-        programme := st.programme, content := st.content, objPath := st.objPath,
-        packPaths := ppc.map (·.1), extra := ex,
-        importances := ppc.map fun pc => getImportance a st pc.1,
-        blocks := [],
-        hoa := some {
-          rtime := rtime, duration := duration,
-          orders := ppc.map fun pc => (blk pc.2).order,
-          degrees := ppc.map fun pc => (blk pc.2).degree,
-          gains := ppc.map fun pc => (blk pc.2).gain,
-          importances := ppc.map fun pc => (blk pc.2).importance,
-          normalization := norm, nfcRefDist := nfc, screenRef := sref } }
+    | .ok hm =>
+      match getExtraData a st ppc none with
+      | .error e => .error e
+      | .ok ex => .ok {
+          kind := 4, tracks := ap.alloc.map (·.2), channels := ppc.map (·.2),
+          programme := st.programme, content := st.content, objPath := st.objPath,
+          packPaths := ppc.map (·.1), extra := ex,
+          importances := ppc.map fun pc => getImportance a st pc.1,
+          blocks := [], hoa := some hm }
 
 /-- `_get_rendering_items`. -/
 def itemsOfPack (a : Adm) (st : State) (ap : AllocPack) : Except Err (List Item) :=
@@ -465,8 +548,9 @@ def selectStates (a : Adm) (given : Option Nat) (ign : List Nat) : List State :=
 /-- `select_rendering_items(adm, audio_programme, selected_complementary_objects)`
 on a document that passed `validate_structure`. -/
 def selectRenderingItems (a : Adm) (given : Option Nat) (sel : List Nat) : Except Err (List Item) :=
-  if a.fmt.packs.any (·.type == 2) then .error .unsupported
-  else
+  match wrappedPacks a.fmt with          -- `_PackAllocator(adm)` is built first
+  | .error e => .error e
+  | .ok _ =>
     match selectComplementary a sel with
     | .error e => .error e
     | .ok ign => flatMapE (itemsOfState a) (selectStates a given ign)
